@@ -401,7 +401,7 @@ def coq_shard(cases):
         old.append("(%s,\n  %s,\n  %s)" % (m, c_line(c["lk"]), e))
         new.append("(%s, %s,\n  %s,\n  %s)" % (m, tb, c_rline(c), e))
         for ob in c["rowobs"]:
-            rows.append("(%d, %s, %s, %s,\n  %s,\n  %s,\n  [%s])" % (
+            rows.append("(%d%%nat, %s, %s, %s,\n  %s,\n  %s,\n  [%s])" % (
                 i, R.c_isa(c["isa"]), tb, R.c_mem(ob["mem"]), R.c_rows(ob["ld"]), R.c_rows(ob["st0"]),
                 "; ".join("(%s, %s)" % (cs(rt), R.c_rows(r)) for rt, r in ob["st"])))
     return (HEADER + "\n".join(defs)
